@@ -373,7 +373,16 @@ impl PayloadHistory {
         // Iterate backwards over the deltas. Skip over those older than we
         // need.
         let mut iter = self.deltas.iter().rev();
-        for delta in &mut iter {
+        // If they have the version our oldest delta was made from, they
+        // need all the deltas and there is nothing to skip.
+        let from_oldest = self.deltas.back().map(|delta| {
+            delta.serial()
+        }) == Some(serial.add(1));
+        while !from_oldest {
+            let delta = match iter.next() {
+                Some(delta) => delta,
+                None => break,
+            };
             // delta.serial() is the target serial of the delta, serial is
             // the target serial the caller has. So we can skip over anything
             // smaller.
